@@ -364,6 +364,55 @@ theorem map_mut_eq_elementwise (c : Cont R) (f : Nat → Rec R → World R → R
       | some later =>
         exact ⟨_, some (r.history, later), rfl, by simp [hm], rfl, fun h => by simp at h⟩
 
+/-! ### single elements as records, 0-dimensional containers -/
+
+/-- **Element access as a record** (`get_as_record` / `try_get_as_record` of the three
+    `TensorAccess` flavours and of `RecordMatrix`): the record returned for an in-range index is
+    exactly the record the element-by-element view of the container has at that position (number,
+    tape, position — so it differentiates identically); out of range `try_…` gives `None` and
+    `get_as_record` panics. -/
+theorem get_as_record_eq_scalar (c : Cont R) (pos : Option Nat) :
+    c.tryGetAsRecord pos = pos.bind (fun k => c.toRecs[k]?)
+      ∧ c.getAsRecord pos
+          = match pos.bind (fun k => c.toRecs[k]?) with
+            | some r => .ok r
+            | none => .panic .explicit := by
+  have h1 : c.tryGetAsRecord pos = pos.bind (fun k => c.toRecs[k]?) := by
+    cases pos with
+    | none => rfl
+    | some k => simp [Cont.tryGetAsRecord, Cont.toRecs, List.getElem?_map]
+  refine ⟨h1, ?_⟩
+  unfold Cont.getAsRecord
+  rw [h1]
+  generalize (pos.bind fun k => c.toRecs[k]?) = o
+  cases o <;> rfl
+
+/-- **`Record` ↔ 0-dimensional `RecordTensor`**: both directions keep number, tape and position;
+    the round trips are identities. -/
+theorem record_tensor0_conversions (r : Rec R) (c : Cont R) (e : R × Nat) :
+    (Cont.ofRecord r).toRecord = .ok r
+      ∧ (Cont.ofRecord r).toRecs = [r] ∧ (Cont.ofRecord r).shape = []
+      ∧ (c.shape = [] → c.elems = [e] →
+          c.toRecord = .ok ⟨e.1, c.history, e.2⟩ ∧ Cont.ofRecord ⟨e.1, c.history, e.2⟩ = c) := by
+  refine ⟨rfl, rfl, rfl, ?_⟩
+  intro hs he
+  constructor
+  · simp [Cont.toRecord, he]
+  · cases c with
+    | mk shape elems history =>
+      simp only at hs he
+      subst hs he
+      rfl
+
+/-- Exchanging two elements through `get_reference_mut` / `try_get_reference_mut` exchanges the
+    two records and nothing else. -/
+theorem swap_elems_eq_scalar (c : Cont R) (i j : Nat) :
+    (c.swapElems i j).toRecs = listSwap c.toRecs i j
+      ∧ (c.swapElems i j).shape = c.shape ∧ (c.swapElems i j).history = c.history := by
+  unfold Cont.swapElems listSwap
+  simp only [Cont.toRecs, List.getElem?_map]
+  cases hi : c.elems[i]? <;> cases hj : c.elems[j]? <;> simp [List.map_set]
+
 /-! ### well-formedness and positions (C15: "each new variable or result occupies the next unused
     tape position", "one entry per element") -/
 
